@@ -86,6 +86,8 @@ highlight(struct vbi_search *s, cache_page *vtp,
 	s->start_subno = vtp->subno;
 	s->row[0] = LAST_ROW + 1;
 	s->col[0] = 0;
+	s->row[1] = FIRST_ROW;
+	s->col[1] = 0;
 
 	for (i = FIRST_ROW; i < LAST_ROW; i++) {
 		vbi_char *acp = &pg->text[i * pg->columns];
